@@ -9,11 +9,4 @@ theorem limitReader_Read_matches : ∀ n ∈ [(-1 : Int), 0, 1, 7], ∀ n' ∈ [
     run (envLimitRead n n' big k) g_c_limitReader_Read = limitReadExpected n n' big k := by
   decide +kernel
 
-theorem msgReader_reset_matches : ∀ rsv1 : Bool,
-    run (envMsgReaderReset rsv1) g_c_msgReader_reset = msgReaderResetExpected rsv1 := by
-  decide +kernel
-
-theorem msgReader_setFrame_matches : run (mkEnv []) g_c_msgReader_setFrame = setFrameExpected := by
-  decide +kernel
-
 end WS.Props.G2
